@@ -18,13 +18,14 @@ VARIABLES refs, logs, path,
 vars == <<refs, logs, path, fs>>
 View == <<refs, logs>>
 
+\* ("remotes/o/x/y" is at once the ref x/y of remote o and the ref y of a remote NAMED o/x)
 Names == { "heads/a_b", "heads/aXb", "heads/A_b", "heads/a%b",
-           "remotes/o/x", "remotes/oo/x", "remotes/o_/x", "remotes/o/y" }
-NamesS == IF Small THEN { "heads/a_b", "heads/aXb", "heads/A_b", "remotes/o_/x", "remotes/oo/x" }
+           "remotes/o/x", "remotes/oo/x", "remotes/o_/x", "remotes/o/x/y" }
+NamesS == IF Small THEN { "heads/a_b", "heads/aXb", "heads/A_b", "remotes/o_/x", "remotes/oo/x", "remotes/o/x/y" }
           ELSE Names
 Prefixes == { "", "heads/a_", "heads/a%", "heads/a", "heads/A", "heads/",
               "remotes/o/", "remotes/o", "remotes/o_/", "remotes/oo/", "remotes/" }
-Remotes == { "o", "oo", "o_", "O" }
+Remotes == { "o", "oo", "o_", "O", "o/x" }
 Vals == {1, 2}
 
 \* an operation is <<name, n, m, v, prefixes, notPrefixes>> (unused fields empty)
@@ -69,15 +70,20 @@ Enabled(o) ==
 (* onto itself must leave it alone, whatever it answers), 0 = not judged (overwriting renames,    *)
 (* exclusion prefixes, several prefixes, prefixes that are not directories).                      *)
 EndsWithSlash(p) == p = "" \/ SubSeq(p, Len(p), Len(p)) = "/"
+\* a file store cannot hold a name and a name below it (file and directory of the same path)
+Below(a, b) == Len(a) < Len(b) /\ SubSeq(b, 1, Len(a) + 1) = a \o "/"
+PathClash(n) == \E m \in DOMAIN refs : Below(n, m) \/ Below(m, n)
 FsStep(o) ==
-  CASE o[1] \in {"set", "setlog", "del", "get", "log"} -> 2
+  CASE o[1] \in {"set", "setlog", "del", "get", "log"} -> IF PathClash(o[2]) THEN 0 ELSE 2
+    [] o[1] \in {"ren", "copy"} /\ (PathClash(o[2]) \/ PathClash(o[3])) -> 0
     [] o[1] = "ren"    -> IF o[2] \notin DOMAIN refs THEN 2
-                          ELSE IF o[3] \in DOMAIN refs THEN 0 ELSE 2
+                          ELSE IF o[3] \in DOMAIN refs \/ PathClash(o[3]) THEN 0 ELSE 2
     [] o[1] = "copy"   -> IF o[2] \notin DOMAIN refs THEN 2
                           ELSE IF o[2] = o[3] THEN 1
-                          ELSE IF o[3] \in DOMAIN refs \/ o[2] \notin DOMAIN logs THEN 0 ELSE 2
+                          ELSE IF o[3] \in DOMAIN refs \/ o[2] \notin DOMAIN logs \/ PathClash(o[3]) THEN 0 ELSE 2
     [] o[1] = "setlogf" -> 0
     [] o[1] = "filter" -> IF Cardinality(o[5]) = 1 /\ o[6] = {} /\ \A q \in o[5] : EndsWithSlash(q) THEN 2 ELSE 0
+    [] o[1] = "renremote" -> IF \E n \in DOMAIN refs : StartsWith(n, RemotePrefix(o[2])) /\ PathClash(Retarget(n, o[2], o[3])) THEN 0 ELSE 2
     [] OTHER           -> 2
 Min2(a, b) == IF a < b THEN a ELSE b
 
